@@ -302,6 +302,8 @@ func (e *Env) run() {
 		}
 	}
 	installSQLSeam()
+	sqlFault, sqlFaultsOn = nil, true
+	defer func() { sqlFaultsOn = false }()
 	verifhook.YieldHook = func(site string) {
 		if goid() != e.mainGID {
 			return
